@@ -76,7 +76,7 @@ def execute(case):
     from gcmpy import JointDegreeNames as JN, GCMAlgorithmNames as GN
     tr = {"kind": "run", "case": case, "keys": [list(k) for k in case["keys"]], "wts": list(case["wts"]),
           "sizes": list(case["sizes"]), "N": case["N"], "raw_known": False, "raw": [], "out": [], "types_ok": True,
-          "raised": "", "usable_empirical": "", "usable_generator": ""}
+          "raised": "", "usable_empirical": "", "usable_generator": "", "out_again": []}
     captured = {}
     try:
         loader = _loader(case)
@@ -114,6 +114,14 @@ def execute(case):
         enc.append([int(x) for x in e] if good else [0] * K)
     tr["types_ok"] = bool(ok)
     tr["out"] = enc
+    tr["out_again"] = enc
+    if ok and case["rng"][0] == "seed":
+        # the returned sequence belongs to the caller: a later sample from the same loader must not change it
+        try:
+            Oracle().run_seeded(case["rng"][1] + 1, lambda: loader.sample_jds_from_jdd(max(1, case["N"] - 1)))
+            tr["out_again"] = [[int(x) for x in e] for e in out]
+        except Exception:
+            pass
     if ok:
         # "usable wherever the library accepts a joint degree sequence"
         try:
